@@ -90,8 +90,9 @@ PROPS = {
     "C04": {
         "lean_modules": ["WP.Props.C04"],
         "lean_support": ["WP.Model.Access"],
-        "families": [("posauth", 20000, 200000)],
-        "rule": "posauth: every combination of (owner, delegate present/absent/which, delegated amount 0/1/2/5, token amount, authority key, signer flag) "
+        "families": [("posauth", 20000, 200000), ("hist", 12000, 300000)],
+        "history": True,
+        "rule": "hist (ops xliq, xsub): the REAL liquidity instructions through the program's entrypoint with the position owner signing / a stranger signing / the owner not signing, and every account slot of swap_v2 and increase_liquidity_v2 (incl. the signer) replaced by a look-alike: unauthorized variants must be refused and change nothing; posauth: every combination of (owner, delegate present/absent/which, delegated amount 0/1/2/5, token amount, authority key, signer flag) "
                 "on real spl-token account bytes through verify_position_authority, verify_position_authority_interface and pino_verify_position_authority "
                 "(the space has 1920 points; sampled with replacement far beyond that); non-trivial = an accepted combination; "
                 "the instruction tables (63 accounts structs, 6 Pinocchio prologues, handler guards, routing table, #[program] list) are regenerated and checked against the requirement tables by `decide`",
@@ -114,8 +115,9 @@ PROPS = {
     "C15": {
         "lean_modules": ["WP.Props.C15"],
         "lean_support": ["WP.Model.Access"],
-        "families": [("ldta", 0, 0), ("posauth", 5000, 50000)],
-        "rule": "ldta: all 64 combinations of (owner ok, writable, discriminator fixed/dynamic/other/short, whirlpool field ok, mutable load) through the Anchor and the "
+        "families": [("ldta", 0, 0), ("posauth", 5000, 50000), ("hist", 12000, 300000)],
+        "history": True,
+        "rule": "hist (op xsub): every account slot of the real swap_v2 and increase_liquidity_v2 instructions replaced by a look-alike of the same owner and type (vault / tick array / oracle of another pool over the same mints, another mint, another position and its token account, the other token program, a stranger as signer): the instruction must be refused and change nothing; ldta: all 64 combinations of (owner ok, writable, discriminator fixed/dynamic/other/short, whirlpool field ok, mutable load) through the Anchor and the "
                 "Pinocchio tick-array loaders (exhaustive); the slot table of the 15 fund-moving accounts structs and 6 Pinocchio prologues is regenerated and checked by `decide`",
         "trusted": ["as C04; the sparse-swap builder's account checks (PDA, ownership) are part of C10's family; token-program-side checks (owner accounts) are Solana's"],
     },
@@ -176,7 +178,7 @@ PROPS = {
         "lean_support": ["WP.Props.C13"],
         "families": [("pmod", 40000, 2000000), ("poff", 40000, 3000000), ("hist", 6000, 150000), ("dyn", 10000, 500000), ("reset", 20000, 500000)],
         "history": True,
-        "rule": "pmod: one modify-liquidity on an ARBITRARY pool / position / bound-tick state (boundary-biased u128/i128 values, wrapped accumulators, all reward-initialisation prefixes, "
+        "rule": "hist op xliq: the Pinocchio-routed increase / decrease_liquidity (v1, v2) instructions executed through the program's REAL entrypoint with the real token programs, compared with the manager-level result of both implementations, the model and exact fee arithmetic; pmod: one modify-liquidity on an ARBITRARY pool / position / bound-tick state (boundary-biased u128/i128 values, wrapped accumulators, all reward-initialisation prefixes, "
                 "fixed and dynamic arrays, bounds in one or two arrays, increases / decreases / full removal, timestamps before / at / after the last update) run by the Anchor managers and by the "
                 "Pinocchio port on identical bytes, compared with each other (result, error, every account byte, size / rent decisions) and with the model; poff: the division-free tick-offset routine "
                 "against the Anchor checks for boundary and random ticks / spacings / start indexes; hist: every modify of every history is run by both implementations on copies and compared; "
@@ -189,7 +191,7 @@ PROPS = {
         "lean_support": [],
         "families": [("dyn", 20000, 1500000), ("dynx", 0, 0), ("hist", 6000, 150000)],
         "history": True,
-        "rule": "dyn: random op sequences (initialize / modify / de-initialize / uninit->uninit updates, get, next-initialized in both directions incl. the shifted search range and just outside it, "
+        "rule": "hist op xliq: the real liquidity instructions resize the REAL dynamic tick-array accounts and move rent: account length = 148 + 112 n, rent exemption and lamports against the rent ledger; dyn: random op sequences (initialize / modify / de-initialize / uninit->uninit updates, get, next-initialized in both directions incl. the shifted search range and just outside it, "
                 "off-grid and out-of-array ticks) over all 88 slots, spacings and start indexes incl. the arrays straddling the minimum / maximum tick, applied to FIVE real arrays: dynamic via Anchor, dynamic via "
                 "Pinocchio, dynamic via both alternately, fixed via Anchor, fixed via Pinocchio, and to an abstract slot map; dynx: EXHAUSTIVE over every subset of the representative slots "
                 "{0,1,63,64,65,86,87} + one more, initialized ascending / descending / shuffled, each representative then queried, toggled, modified and toggled back; hist: whole-pool histories whose "
